@@ -119,6 +119,16 @@ pub fn nonce_gap(spec: SpecId) -> Case {
 /// re-executes after tx0); tx2: slot2 := slot1 + 5 (reads slot1 from storage at first). A rewind
 /// caused by tx1's re-execution must also invalidate an earlier validation of tx2.
 pub fn late_write_chain(spec: SpecId) -> Case {
+    cond_write_chain(spec, false)
+}
+
+/// The mirror image: tx1 writes slot1 only while it still sees slot0 == 0, i.e. only its *stale*
+/// incarnation writes the location that tx2 reads; the re-execution shrinks the write set.
+pub fn early_write_chain(spec: SpecId) -> Case {
+    cond_write_chain(spec, true)
+}
+
+fn cond_write_chain(spec: SpecId, write_when_zero: bool) -> Case {
     use crate::world::op::*;
     let code = Asm::new()
         .push(0)
@@ -140,11 +150,13 @@ pub fn late_write_chain(spec: SpecId) -> Case {
         .op(STOP)
         .label("op1")
         .push(0)
-        .op(SLOAD)
-        .op(ISZERO)
+        .op(SLOAD);
+    // skip the write when slot0 is zero (late write) resp. non-zero (early write)
+    let code = if write_when_zero { code } else { code.op(ISZERO) };
+    let code = code
         .push_label("done")
         .op(JUMPI)
-        .push(1)
+        .push(9)
         .push(1)
         .op(SSTORE)
         .label("done")
@@ -164,5 +176,5 @@ pub fn late_write_chain(spec: SpecId) -> Case {
     let txs = (0..3)
         .map(|i| (format!("late.op{i}(e{i})"), call(eoa(i), 0, contract(12), &[word(i)])))
         .collect();
-    Case::new("late-write-chain", spec, db, txs)
+    Case::new(if write_when_zero { "early-write-chain" } else { "late-write-chain" }, spec, db, txs)
 }
